@@ -1,8 +1,9 @@
 """C01 — every peer's confirmed timeline equals the serial replay of the true inputs."""
 from . import families as F
 from .simprops import generic_run, sizes, sim_replay
+from .p_session import run_session_correspondence
 LABELS = {"C01", "PANIC"}
 def run(ctx):
-    generic_run(ctx, LABELS, [("c01", lambda: F.fam_c01(ctx.rng, sizes(ctx, 300, 3000))), ("long", lambda: F.fam_long(ctx.rng, sizes(ctx, 12, 120)))])
+    generic_run(ctx, LABELS, extra=run_session_correspondence, plan=[("c01", lambda: F.fam_c01(ctx.rng, sizes(ctx, 300, 3000))), ("long", lambda: F.fam_long(ctx.rng, sizes(ctx, 12, 120)))])
 def replay(ctx, path):
     return sim_replay(ctx, path, LABELS)
